@@ -19,6 +19,14 @@ pub fn result_reason_code(r: &PresentationContextResultReason) -> u8 {
     }
 }
 
+/// the user variables as (sub-item type, content) pairs, in order
+pub fn uservars_subs(uv: &[UserVariableItem]) -> Vec<(u8, Vec<u8>)> {
+    match uservars_to_ref(uv) {
+        Ok(Some(RItem::UserInfo(subs))) => subs.into_iter().map(|s| (s.ty, s.data)).collect(),
+        _ => Vec::new(),
+    }
+}
+
 fn uservars_to_ref(uv: &[UserVariableItem]) -> Result<Option<RItem>, String> {
     if uv.is_empty() {
         // PS3.8 requires one user information item; a Pdu value with no user
